@@ -8,8 +8,10 @@ ASSUMPTIONS = [
     "the private constants of src/rtte.rs (200 ms, 60 s, 10 ms, K=4, 300 ms initial) are observed "
     "through behaviour at the clamps, not read as symbols",
 ]
-RULE = ("op lists over {sample r, timeout}: r drawn from boundary values (0, 1 ns, around 10 ms/200 ms/60 s, "
-        "hours, up to 2^60 s) and log-uniform; non-trivial = contains at least one sample and one timeout "
+RULE = ("op lists over {sample r, timeout}: random stream with r drawn from boundary values (0, 1 ns, around 10 ms/200 ms/60 s, "
+        "hours, up to 2^60 s) and log-uniform, plus a steady-path stream (runs of 8-40 nearly equal samples around "
+        "1 ms..70 s so that rttvar decays under the granularity floor, back-off chains of up to 12 timeouts, return "
+        "samples incl. 0 ns); non-trivial = contains at least one sample and one timeout "
         "and the observed rto is not constant; distinct = distinct case line")
 
 
@@ -27,9 +29,31 @@ def _sample_value(rng):
     return rng.range(0, 2**60 * 10**9)
 
 
+def gen_steady(rng, n):
+    """Low-jitter paths: long runs of nearly equal samples (rttvar decays below the clock granularity, so the
+    `max(4*rttvar, G)` floor is what decides the RTO), interleaved with back-off chains of up to 12 timeouts
+    (reaching the 60 s cap from the floor takes 9) and a return sample."""
+    lines = []
+    for i in range(n):
+        base = rng.choice([1_000_000, 50_000_000, 150_000_000, 165_000_000, 190_000_000, 200_000_000, 300_000_000,
+                           1_000_000_000, 5_000_000_000, 14_000_000_000, 29_000_000_000, 59_000_000_000,
+                           rng.range(100_000_000, 70_000_000_000)])
+        jitter = rng.choice([0, 0, 1, 1000, base // 1000 + 1, base // 100 + 1])
+        toks = []
+        for _ in range(rng.range(1, 4)):
+            for _ in range(rng.range(8, 40)):
+                toks.append("s%d" % max(0, base + rng.range(0, 2 * jitter + 1) - jitter))
+            for _ in range(rng.choice([0, 1, 2, 3, 9, 10, 12])):
+                toks.append("t")
+            if rng.chance(1, 2):
+                toks.append("s%d" % rng.choice([0, 1, base, base // 2, base * 2]))
+        lines.append("rtte " + " ".join(toks))
+    return lines
+
+
 def gen(rng, tier):
     n = 400 if tier == "quick" else 20000
-    lines = []
+    lines = gen_steady(rng.fork("steady"), 150 if tier == "quick" else 5000)
     for _ in range(n):
         L = rng.range(1, 40 if tier == "quick" else 120)
         toks = []
